@@ -15,13 +15,16 @@ import (
 // ---------------------------------------------------------------- batch = one guest module + one host module
 
 type batch struct {
-	sigs  []*sigT
-	units []*unit
-	bin   []byte
+	sigs   []*sigT
+	units  []*unit
+	bin    []byte
+	li     int // index into layouts
+	layout *layoutT
+	rots   []int // rotations run in this batch
 }
 
-func newBatch(sigs []*sigT) *batch {
-	b := &batch{sigs: sigs}
+func newBatch(sigs []*sigT, li int, rots []int) *batch {
+	b := &batch{sigs: sigs, li: li, layout: &layouts[li], rots: rots}
 	for _, s := range sigs {
 		var plain *unit
 		for _, st := range stylesFor(s) {
@@ -44,56 +47,6 @@ func extCount(ts []byte) (n int) {
 		}
 	}
 	return
-}
-
-// guestModule builds, for every unit i (import "host"."u<i>"):
-//
-//	c<i>_<k> : (externref^a) -> (i64, externref^b)   pushes the rotation-k constants as parameters (externref
-//	           parameters cannot be constants and come from the caller), calls the import, compares every result
-//	           INSIDE the guest with the rotation-k constant (`h() != C`; floats on their bits; externref by
-//	           ref.is_null) and returns the mismatch bit mask plus the externref results.
-//	e<i>     : P -> R   forwards its parameters to the import and returns its results (echo).
-//	x<i>     : the import itself, re-exported.
-func (b *batch) guestModule() []byte {
-	m := &wb.Module{}
-	for _, u := range b.units {
-		m.ImportFunc("host", fmt.Sprintf("u%d", u.idx), u.sig.P, u.sig.R)
-	}
-	for _, u := range b.units {
-		P, R := u.sig.P, u.sig.R
-		a, nb := extCount(P), extCount(R)
-		cp := cyc(a, tExt)
-		cr := append([]byte{tI64}, cyc(nb, tExt)...)
-		for k := 0; k < nRot; k++ {
-			as := &wb.Asm{}
-			constBody(as, u, k, 0)
-			f := m.AddFunc(cp, cr, R, as.B)
-			m.ExportFunc(fmt.Sprintf("c%d_%d", u.idx, k), f)
-		}
-		if u.deep() {
-			// g<i>(depth, externref^a): recurse depth times, then do what c<i>_<kDeep> does. Sweeping depth moves the
-			// point where the native stack has to grow across the host call (argument registers live).
-			self := m.NumImportedFuncs() + uint32(len(m.Funcs))
-			as := &wb.Asm{}
-			as.LocalGet(0).If(wb.Void)
-			as.LocalGet(0).I32Const(1).Op(0x6b) // i32.sub
-			for j := 0; j < a; j++ {
-				as.LocalGet(uint32(1 + j))
-			}
-			as.Call(self).Return().End()
-			constBody(as, u, kDeep, 1)
-			f := m.AddFunc(append([]byte{tI32}, cp...), cr, R, as.B)
-			m.ExportFunc(fmt.Sprintf("g%d", u.idx), f)
-		}
-		as := &wb.Asm{}
-		for j := range P {
-			as.LocalGet(uint32(j))
-		}
-		as.Call(uint32(u.idx))
-		m.ExportFunc(fmt.Sprintf("e%d", u.idx), m.AddFunc(P, R, nil, as.B))
-		m.ExportFunc(fmt.Sprintf("x%d", u.idx), uint32(u.idx))
-	}
-	return m.Encode()
 }
 
 // constBody emits: push rotation-k constants (externref parameters from locals extBase..), call the import,
@@ -176,6 +129,7 @@ type replayT struct {
 	Dir    string   `json:"direction"`
 	K      int      `json:"rotation"`
 	Depth  int      `json:"depth"`
+	Layout string   `json:"layout,omitempty"`
 }
 
 type runner struct {
@@ -194,7 +148,7 @@ func (r *runner) viol(w *world, u *unit, dir string, k int, sig, what string) {
 	if len(r.res.Viols) >= 24 {
 		return
 	}
-	rp := replayT{Engine: w.eng, Style: u.st, Dir: dir, K: k, Depth: r.depth}
+	rp := replayT{Engine: w.eng, Style: u.st, Dir: dir, K: k, Depth: r.depth, Layout: w.b.layout.Name}
 	for _, t := range u.sig.P {
 		rp.P = append(rp.P, tname(t))
 	}
@@ -202,7 +156,7 @@ func (r *runner) viol(w *world, u *unit, dir string, k int, sig, what string) {
 		rp.R = append(rp.R, tname(t))
 	}
 	r.res.Viols[full] = &violT{Sig: full, N: 1, Replay: rp,
-		What: fmt.Sprintf("%s, %s %s, %s, rotation %d%s: %s", w.eng, u.st, u.sig, dir, k, depthStr(dir, r.depth), what)}
+		What: fmt.Sprintf("%s, %s %s, %s, rotation %d%s%s: %s", w.eng, u.st, u.sig, dir, k, depthStr(dir, r.depth), layoutStr(w.b.layout), what)}
 }
 
 func slotClass(i int, ts []byte) string {
@@ -285,6 +239,13 @@ func (w *world) fn(name string) (f api.Function, perr string) {
 	}
 	w.fns[name] = f
 	return f, ""
+}
+
+func layoutStr(l *layoutT) string {
+	if l.Name == "plain" {
+		return ""
+	}
+	return ", module layout " + l.Name
 }
 
 func depthStr(dir string, d int) string {
@@ -375,7 +336,7 @@ func (u *unit) deep() bool {
 
 // runUnit executes every direction and rotation of one unit on one engine.
 func (r *runner) runUnit(w *world, u *unit) {
-	for k := 0; k < nRot; k++ {
+	for _, k := range w.b.rots {
 		if r.only != nil && r.only.K != k {
 			continue
 		}
@@ -685,22 +646,42 @@ func rtConfig(eng string) wazero.RuntimeConfig {
 // runBatch instantiates the batch on every engine and runs all of its units.
 func (r *runner) runBatch(b *batch) {
 	ctx := context.Background()
+	rejected := map[string]string{}
+	ran := 0
 	for _, eng := range engines {
 		if r.only != nil && r.only.Engine != eng {
 			continue
 		}
+		ran++
 		w := &world{eng: eng, b: b, ctx: ctx, fns: map[string]api.Function{}}
 		w.rt = wazero.NewRuntimeWithConfig(ctx, rtConfig(eng))
-		hb := w.rt.NewHostModuleBuilder("host")
+		hbs := map[string]wazero.HostModuleBuilder{}
+		var hnames []string
 		for _, u := range b.units {
-			hb = w.define(hb, u)
+			hm := b.layout.hostModule(u)
+			if hbs[hm] == nil {
+				hbs[hm] = w.rt.NewHostModuleBuilder(hm)
+				hnames = append(hnames, hm)
+			}
+			hbs[hm] = w.define(hbs[hm], u)
 		}
-		if _, err := hb.Instantiate(ctx); err != nil {
-			fatalf("host module rejected (%s): %v", eng, err)
+		for _, hm := range hnames {
+			if _, err := hbs[hm].Instantiate(ctx); err != nil {
+				fatalf("host module %s rejected (%s): %v", hm, eng, err)
+			}
+		}
+		if b.layout.needsProvider() {
+			if _, err := w.rt.InstantiateWithConfig(ctx, providerModule, wazero.NewModuleConfig().WithName("prov")); err != nil {
+				fatalf("provider module rejected (%s): %v", eng, err)
+			}
 		}
 		g, err := w.rt.InstantiateWithConfig(ctx, b.bin, wazero.NewModuleConfig().WithName("guest"))
 		if err != nil {
-			fatalf("guest module rejected (%s): %v", eng, err)
+			// a by-construction valid module: a harness error if every engine refuses it, a finding about the
+			// refusing engine if another one accepts and runs it
+			rejected[eng] = err.Error()
+			w.rt.Close(ctx)
+			continue
 		}
 		w.guest = g
 		for _, u := range b.units {
@@ -710,13 +691,19 @@ func (r *runner) runBatch(b *batch) {
 			r.runUnit(w, u)
 			r.res.Units++
 		}
-		for _, u := range b.units {
-			r.res.Funcs += int64(nRot + 1)
-			if u.deep() {
-				r.res.Funcs++
+		r.res.Funcs += b.guestFuncCount()
+		w.rt.Close(ctx)
+	}
+	if len(rejected) > 0 {
+		if len(rejected) == ran {
+			for _, e := range sortedKeys(rejected) {
+				fatalf("guest module (layout %s) rejected by every engine, e.g. %s: %s", b.layout.Name, e, rejected[e])
 			}
 		}
-		w.rt.Close(ctx)
+		for _, e := range sortedKeys(rejected) {
+			w := &world{eng: e, b: b}
+			r.viol(w, b.units[0], "instantiate", b.rots[0], "guest-module-rejected-by-one-engine", "a valid guest module that the other engine accepts and runs is refused: "+errClass(rejected[e]))
+		}
 	}
 }
 
